@@ -31,7 +31,6 @@ use super::common::{EState, strategy_id, t_plus, t0};
 use crate::core::{Ctx, Distinct, Outcome, Samples, hash_of};
 use crate::explore::env::{flag_waker, paused_rt, poll_quiesce};
 use barter::{
-    Timed,
     engine::state::{
         EngineState, connectivity::Health, global::DefaultGlobalData,
         instrument::data::DefaultInstrumentMarketData,
@@ -515,6 +514,9 @@ fn open_snapshot(ex: ExchangeIndex, inst: InstrumentIndex, cid: &str) -> Account
     }
 }
 
+/// non-vacuity of the connectivity routing rule: account events that turned their own exchange's account link healthy
+static CONNECTIVITY_ROUTING_OBSERVED: AtomicU64 = AtomicU64::new(0);
+
 pub fn check_derived(ix: &IndexedInstruments) -> Vec<Viol> {
     let mut out = Vec::new();
     let state = match build_state(ix) {
@@ -544,7 +546,8 @@ pub fn check_derived(ix: &IndexedInstruments) -> Vec<Viol> {
                 if key_ok != Some(true) || st.asset != ka.value.asset {
                     out.push(("C11/derived/asset-states/index-holds-other-entity".into(),
                         format!("asset_index({i}) holds {:?} (key {:?}); entity {i} is {:?}", st.asset, state.assets.0.get_index(i).map(|(k, _)| k), ka.value)));
-                } else if st.balance != Some(Timed::new(seeded(i), t0())) {
+                // the seeded balance VALUE must sit on entity i; the statement does not fix how the seed is time-stamped
+                } else if st.balance.as_ref().map(|b| b.value) != Some(seeded(i)) {
                     out.push(("C11/derived/asset-states/seeded-balance-on-other-entity".into(),
                         format!("asset {i} {:?} seeded with {:?} holds {:?}", ka.value, seeded(i), st.balance)));
                 }
@@ -589,6 +592,14 @@ pub fn check_derived(ix: &IndexedInstruments) -> Vec<Viol> {
         let i = ka.key.index();
         let ex = ix.find_exchange_index(ka.value.exchange).unwrap();
         let mut s = state.clone();
+        // Every account link is first reported as reconnecting BY NAME: whatever health the tables start with (the
+        // statement does not say), the account event addressed by index then has something to change on its own
+        // exchange, and the other exchanges are compared with their state before the event.
+        if let Err(p) = guarded(|| { for ke in ix.exchanges() { s.connectivity.update_from_account_reconnecting(&ke.value); } }) {
+            out.push(("C11/derived/connectivity/update-by-name-panics".into(), format!("update_from_account_reconnecting: {p}")));
+            continue;
+        }
+        let conn_before = s.connectivity.exchanges.clone();
         let ev = AccountEvent {
             exchange: ex,
             kind: AccountEventKind::BalanceSnapshot(Snapshot(AssetBalance { asset: ka.key, balance: updated(i), time_exchange: t_plus(1) })),
@@ -607,12 +618,17 @@ pub fn check_derived(ix: &IndexedInstruments) -> Vec<Viol> {
                     format!("balance update for asset {i} {:?}: asset {j} {:?} holds {got:?}, expected {want:?}", ka.value, kb.value)));
             }
         }
-        for ke in ix.exchanges() {
-            let healthy = s.connectivity.exchanges.get(&ke.value).map(|c| c.account == Health::Healthy);
-            if healthy != Some(ke.key == ex) {
+        // an account event addressed to exchange index `ex` may change the connectivity entry of that exchange only
+        // (whether and how it changes its own entry is not C11's business)
+        for ke in ix.exchanges().iter().filter(|ke| ke.key != ex) {
+            let (was, is) = (conn_before.get(&ke.value), s.connectivity.exchanges.get(&ke.value));
+            if was != is {
                 out.push(("C11/derived/connectivity/update-by-index-lands-on-other-exchange".into(),
-                    format!("account event for exchange {ex}: account link of {} healthy={healthy:?}", ke.value)));
+                    format!("account event for exchange {ex}: connectivity of {} changed from {was:?} to {is:?}", ke.value)));
             }
+        }
+        if s.connectivity.exchanges.get(&ix.exchanges()[ex.index()].value).map(|c| c.account) == Some(Health::Healthy) {
+            CONNECTIVITY_ROUTING_OBSERVED.fetch_add(1, Ordering::Relaxed);
         }
     }
     let mut all_orders = state.clone();
@@ -1225,6 +1241,7 @@ pub fn run(ctx: &Ctx) -> Outcome {
             "index_sequences_with_duplicates": ld(&base_sweep.with_dups) + ld(&ext_sweep.with_dups) + ld(&ext2_sweep.with_dups),
             "distinct_nontrivial": distinct.len(),
             "derived_sets": ld(&derived_evals),
+            "account_events_by_index_that_turned_their_own_exchange_healthy": ld(&CONNECTIVITY_ROUTING_OBSERVED),
             "execution_link_runs": ld(&link_runs),
             "execution_link_distinct_configurations": link_distinct.len(),
             "max_sequence_length": max_len,
